@@ -452,15 +452,16 @@ Definition siter_remove (l : slist) (it : siter) (a : alloc_st) : res (stat * N 
   do (e, l', a') <- sl_unlinkn l (si_current it) (si_prev it) a;
   Ok (CC_OK, e, l', {| si_index := wsub (si_index it) 1; si_next := si_next it; si_current := 0; si_prev := si_prev it |}, a').
 
-(** new->next = iter->next; iter->current->next = new;
-    if (index == size) tail = new; index++; size++.   (current / prev are not touched) *)
+(** new->next = iter->current->next; iter->current->next = new;
+    if (!new->next) tail = new; index++; size++.   (current / prev are not touched) *)
 Definition siter_add (l : slist) (it : siter) (x : N) (a : alloc_st) : res (stat * slist * siter * alloc_st) :=
   match alloc (sl_mem l) SNODE_BYTES a with
   | (None, a1) => Ok (CC_ERR_ALLOC, l, it, a1)
   | (Some id, a1) =>
-      let h0 := shset (sl_heap l) id {| sn_data := x; sn_next := si_next it |} in
+      do nc <- sload (sl_heap l) (si_current it);
+      let h0 := shset (sl_heap l) id {| sn_data := x; sn_next := sn_next nc |} in
       do h1 <- sset_next h0 (si_current it) id;
-      let tail' := if si_index it =? sl_size l then id else sl_tail l in
+      let tail' := if sn_next nc =? 0 then id else sl_tail l in
       Ok (CC_OK, supd l (sl_size l + 1) (sl_head l) tail' h1,
           {| si_index := si_index it + 1; si_next := si_next it; si_current := si_current it; si_prev := si_prev it |}, a1)
   end.
@@ -493,10 +494,12 @@ Definition szip_add (l1 l2 : slist) (z : sziter) (e1 e2 : N) (a : alloc_st) : re
       match alloc (sl_mem l2) SNODE_BYTES a1 with
       | (None, a2) => do a3 <- release (sl_mem l1) id1 a2; Ok (CC_ERR_ALLOC, l1, l2, z, a3)
       | (Some id2, a2) =>
-          do h1 <- sset_next (shset (sl_heap l1) id1 {| sn_data := e1; sn_next := sz1_next z |}) (sz1_current z) id1;
-          do h2 <- sset_next (shset (sl_heap l2) id2 {| sn_data := e2; sn_next := sz2_next z |}) (sz2_current z) id2;
-          let t1 := if sz_index z =? sl_size l1 then id1 else sl_tail l1 in
-          let t2 := if sz_index z =? sl_size l2 then id2 else sl_tail l2 in
+          do c1 <- sload (sl_heap l1) (sz1_current z);
+          do c2 <- sload (sl_heap l2) (sz2_current z);
+          do h1 <- sset_next (shset (sl_heap l1) id1 {| sn_data := e1; sn_next := sn_next c1 |}) (sz1_current z) id1;
+          do h2 <- sset_next (shset (sl_heap l2) id2 {| sn_data := e2; sn_next := sn_next c2 |}) (sz2_current z) id2;
+          let t1 := if sn_next c1 =? 0 then id1 else sl_tail l1 in
+          let t2 := if sn_next c2 =? 0 then id2 else sl_tail l2 in
           Ok (CC_OK, supd l1 (sl_size l1 + 1) (sl_head l1) t1 h1, supd l2 (sl_size l2 + 1) (sl_head l2) t2 h2,
               {| sz_index := sz_index z + 1; sz1_next := sz1_next z; sz2_next := sz2_next z;
                  sz1_current := sz1_current z; sz2_current := sz2_current z; sz1_prev := sz1_prev z; sz2_prev := sz2_prev z |}, a2)
